@@ -1,5 +1,6 @@
 """C13 — service discovery view equals the live registrations."""
 import concurrent.futures
+import copy
 import os
 import re
 
@@ -86,8 +87,12 @@ def regen_constants():
         raise RuntimeError("C13 constants translator: Registry.Monitor not found in registry.go")
     mb = m.group(0)
     join_atomic = "getCurrent(" not in mb and ".join(" not in mb and "l.OnAdd(" in mb and mb.find("l.OnAdd(") < mb.find("c.lock.Unlock()")
+    # the KNOWN finding C13-join-replay-overtakes-event is about exactly this shape: attach under the lock, then
+    # replay getCurrent() - any other shape of Monitor is judged strictly
+    ia, ig = mb.find("watcher.listeners = append(watcher.listeners, l)"), mb.find("c.getCurrent(wkey)")
+    join_head = 0 <= ia < mb.find("c.lock.Unlock()") < ig and ".join(" not in mb
     regen_constants.flags = {"reload_outside": reload_outside, "done_bound": has_param, "setup_creates": setup_creates,
-                             "join_atomic": join_atomic}
+                             "join_atomic": join_atomic, "join_head": join_head}
     text = "\n".join(["(* GENERATED by tools/props/c13.py from zrpc/resolver/internal/resolver.go,",
                       "   zrpc/resolver/internal/kube/eventhandler.go and core/discov/internal/registry.go of the checked",
                       "   tree at every run - do not edit. *)",
@@ -155,11 +160,14 @@ class ClusterView:
     watcher epoch (etcd history inside the range, deliveries as logged by the fake, joins,
     leaves, quiescent points).  Key ids: index in the case's own key list."""
 
-    def __init__(self, case, obs):
+    def __init__(self, case, obs, exclude=()):
+        obs = copy.deepcopy(obs)          # never touch the executor's observation
+        exclude = set(exclude)            # subscribers left out of the rendering (known(): everything ELSE must be right)
         self.keys = {}
         self.case = case
         self.threads = []
         self.feats = set()
+        self.suspects = []                # joins that overlapped events in the way of C13-join-replay-overtakes-event
         W = [(w["key"], w["exact"]) for w in case["watchers"]]
         muts = []            # (rev, "put"/"del", key, val): etcd's history, mirrored from the ops
         store = {}
@@ -170,7 +178,8 @@ class ClusterView:
         submode = {}
         pubs, keylease, nlease = {}, {}, 7000
         armed = {}
-        for op, st in zip(case["ops"], obs["steps"]):
+        snapshot_before = {}     # watcher -> watchValue.values at the previous quiescent point
+        for stepno, (op, st) in enumerate(zip(case["ops"], obs["steps"])):
             name = op[0]
             if name == "put":
                 rev += 1
@@ -291,12 +300,32 @@ class ClusterView:
                 elif t in ("geterr", "compacted", "closed", "canceled"):
                     self.feats.add("fault_" + t)
             # ---- listeners
-            def join(sid, w, mode, excl):
+            def believed(calls):
+                """key -> value a non-exclusive listener holds after these calls"""
+                m = {}
+                for r in calls:
+                    if r[0] == "add":
+                        m[r[1]] = r[2]
+                    else:
+                        m.pop(r[1], None)
+                return m
+
+            def join(sid, w, mode, excl, normalise=False, atomic=False):
+                if sid in exclude:
+                    return
                 th = cur[w]
                 so = st["subs"][str(sid)]
-                if mode == "rec":
+                if atomic:
+                    # a join that overlapped events about keys it was being handed (suspect of the KNOWN finding): the
+                    # model gets the intended, atomic join - the registry's values; the implementation's deviation, if
+                    # any, shows in the joiner's Values() (prop_ok / known()), not as a disagreement about map order
+                    vals = (st["state"].get(cl_tag(*W[w])) or {}).get("values") or []
+                    order = [(self.kid(k), num(v)) for k, v in vals]
+                elif mode == "rec" and normalise and not excl:
+                    # a join that overlapped events: what the joiner holds after the calls it received
+                    order = [(self.kid(k), num(v)) for k, v in believed(so["rec"]).items()]
+                elif mode == "rec":
                     order = [(self.kid(r[1]), num(r[2])) for r in so["rec"] if r[0] == "add"]
-                    so["rec"] = []
                 else:
                     vals = (st["state"].get(cl_tag(*W[w])) or {}).get("values") or []
                     order = [(self.kid(k), num(v)) for k, v in vals]
@@ -321,7 +350,14 @@ class ClusterView:
                     a = armed[f["trig"]]
                     w = [w for w, l in members.items() if f["trig"] in l]
                     if w:
-                        join(f["sid"], w[0], a["mode"], a["excl"])
+                        nev = sum(len(en.get("evs") or []) for en in st["log"] if en["t"] == "resp" and en["w"] == cl_tag(*W[w[0]]))
+                        sus = nev >= 2 and a["mode"] == "rec" and not a["excl"]
+                        if sus:
+                            # created during a multi-event watch response
+                            self.suspects.append({"sid": f["sid"], "w": w[0], "step": stepno,
+                                                  "keys": sorted(set(e[2] for en in st["log"] if en["t"] == "resp" and
+                                                                     en["w"] == cl_tag(*W[w[0]]) for e in en["evs"]))})
+                        join(f["sid"], w[0], a["mode"], a["excl"], normalise=True, atomic=sus)
             if name == "hook":
                 armed[op[1]] = ({"how": op[4]} if op[2] == "unsub" else {"mode": op[4], "excl": op[5], "how": op[6]})
             if name == "sub" and not st.get("err"):
@@ -332,14 +368,15 @@ class ClusterView:
                 # the joiner actually received as the join's order (ProofsI.join_overlapping_new_registrations); its
                 # notifications of this step (an interleaving of replay and events) are not compared.
                 so = st["subs"].get(str(op[1]))
-                if so is not None:
+                if so is not None and op[1] not in exclude:
                     so["notes"] = []
-                    th = cur[op[2]]
-                    order = [(self.kid(r[1]), num(r[2])) for r in so["rec"] if r[0] == "add"]
-                    so["rec"] = []
-                    th["ops"].append({"d": "join", "x": op[3], "order": order, "jn": 1})
-                    members[op[2]].append(op[1])
-                    submode[op[1]] = "rec"
+                    touched = [m[1] for m in op[4] if m[1] in snapshot_before.get(op[2], {})]
+                    sus = bool(touched) and not op[3] and any(st.get("injected") or [])
+                    if sus:
+                        # events about keys of the snapshot were handled while it was being replayed
+                        self.suspects.append({"sid": op[1], "w": op[2], "step": stepno, "keys": sorted(touched)})
+                    join(op[1], op[2], "rec", op[3], normalise=True, atomic=sus)
+                    cur[op[2]]["ops"][-1]["jn"] = 1
             elif name == "unsub":
                 leave(op[1])
             elif name == "unspy":
@@ -353,6 +390,7 @@ class ClusterView:
                 ws = st["state"].get(tag) or {}
                 rv = sorted((self.kid(k), num(v)) for k, v in ws.get("values") or [])
                 cs = []
+                snapshot_before[w] = dict((k, v) for k, v in ws.get("values") or [])
                 for sid in members[w]:
                     so = st["subs"].get(str(sid)) or {"vals": [], "notes": []}
                     cs.append((nsorted(so["vals"]), [nsorted(x) for x in so["notes"]]))
@@ -535,12 +573,8 @@ class C13(Property):
             ctx.notes.append("unmonitor monitor (Close during load): the next subscriber sees %s" % r["valuesB2"])
         # 4. a second subscriber joins a watched key while the watch goroutine handles an event about a known key
         #    that has not been replayed to it yet (delete / new value): with the replay outside the cluster lock the
-        #    older replayed value overwrites the event (finding C13/join-replay-overtakes-event,
-        #    pending/C13-join-atomic.diff); skipped and noted as long as the source has that shape
-        if not getattr(self, "flags", {}).get("join_atomic"):
-            ctx.notes.append("join monitor skipped: Registry.Monitor replays the known values outside the cluster lock (finding "
-                             "C13/join-replay-overtakes-event, pending/C13-join-atomic.diff)")
-            return fails
+        #    older replayed value overwrites the event: KNOWN finding C13-join-replay-overtakes-event (repair candidate
+        #    pending/C13-join-atomic.diff not applied: it calls the joiner's OnAdd under the cluster lock)
         rc, out, rs = vlib.go_test_overlay("./core/discov", files, "TestVerifC13JoinDuringEvent$", [], tag="c13rl4", timeout=120)
         if rc != 0 or len(rs) != 1:
             raise ExecError("c13 join monitor rc=%s: %s" % (rc, out[-1500:]))
@@ -548,8 +582,17 @@ class C13(Property):
         bad = [v for v in ("delete", "change") if not (r.get(v, {}).get("quiet") and r[v]["joiner"] == r[v]["first"] ==
                                                         sorted(x[1] for x in r[v]["state"]["svc/|p"]["values"]))]
         if bad:
-            fails.append({"what": "a subscriber joined a watched key while an event about a known key was handled: its Values() "
-                                  "differs from the registrations at the quiescent point (%s)" % ", ".join(bad), "replay": r})
+            f = {"what": "a subscriber joined a watched key while an event about a known key was handled: its Values() "
+                         "differs from the registrations at the quiescent point (%s)" % ", ".join(bad), "replay": r}
+            # KNOWN finding C13-join-replay-overtakes-event: exactly the shape of the unchanged tree (committed table: the
+            # joiner keeps the two values it joined with; the first subscriber and the registry are right about the key
+            # that was deleted / changed), and only on a tree whose Monitor replays outside the lock
+            if getattr(self, "flags", {}).get("join_head") and all(
+                    r[v].get("quiet") and r[v]["joiner"] == ["v1", "v2"] and
+                    r[v]["first"] == sorted(x[1] for x in r[v]["state"]["svc/|p"]["values"]) ==
+                    self.KNOWN_JOIN_SHAPE[v].get(r[v].get("touched")) for v in bad):
+                f["known"] = self.KNOWN_JOIN
+            fails.append(f)
         else:
             ctx.notes.append("join monitor (event during the replay of a join): joiner = first subscriber = registry in both variants")
         return fails
@@ -624,12 +667,12 @@ class C13(Property):
                      ["put", "svc/k1", "v7"], ["del", "svc/k2"]]},
         ] + ([
             # a subscriber created from inside a callback during a TWO-event watch response must get the second event
-            # (only with the repaired join: listeners taken per event)
+            # (on a tree whose Monitor replays outside the lock: an instance of the KNOWN finding)
             {"kind": "cluster", "base": 1, "eps": 1, "watchers": [{"key": "svc", "exact": False}],
              "ops": [["put", "svc/k0", "v0"], ["spy", 0], ["sub", 0, 0, "rec", False], ["sub", 1, 0, "rec", False], ["pause"],
                      ["put", "svc/k1", "v1"], ["put", "svc/k2", "v2"], ["hook", 0, "sub", 2, "rec", False, "in"], ["resume"],
                      ["put", "svc/k3", "v3"]]},
-        ] if getattr(self, "flags", {}).get("join_atomic") else []) + [
+        ]) + [
             {"kind": "subset", "set": [V(i) for i in range(32)], "sub": 32},
             {"kind": "subset", "set": [V(i) for i in range(33)], "sub": 32},
             {"kind": "kube", "ops": [
@@ -878,7 +921,15 @@ class C13(Property):
                 target = None
                 mode = rng.choice(["rec", "rec", "api"])
                 hook = ["hook", trig, "sub", st["sid"], mode, mode == "rec" and rng.random() < 0.4, how]
-            if rng.random() < 0.6:
+            if target is None and hook[4] == "rec" and not hook[5] and rng.random() < 0.35:
+                # a subscriber created during a watch response with two events (KNOWN finding on this tree)
+                ops.append(["pause"])
+                for k in rng.sample(inr, min(2, len(inr))):
+                    store[k] = val(k)
+                    st["rev"] += 1
+                    ops.append(["put", k, store[k]])
+                ops.extend([hook, ["resume"]])
+            elif rng.random() < 0.6:
                 k = rng.choice(inr)                      # a watch event: exactly one PUT is dispatched
                 v = val(k)
                 for _ in range(6):                       # preferably one that changes the views
@@ -927,8 +978,21 @@ class C13(Property):
                 store[k] = v
                 st["rev"] += 1
                 ms.append(["put", k, v])
+            excl = rng.random() < 0.4
+            present = [k for k in keys if cl_in_range(k, wk["key"], wk["exact"]) and k in store and k not in [m[1] for m in ms]]
+            if w in spied and not excl and present and rng.random() < 0.4:
+                # ... and an event about a key the joiner is about to be handed (KNOWN finding on this tree when the
+                # key has not been replayed yet)
+                k = rng.choice(present)
+                if rng.random() < 0.5:
+                    del store[k]
+                    ms.append(["del", k])
+                else:
+                    store[k] = val(k)
+                    ms.append(["put", k, store[k]])
+                st["rev"] += 1
             if w in spied:
-                ops.append(["subj", st["sid"], w, rng.random() < 0.4, ms])
+                ops.append(["subj", st["sid"], w, excl, ms])
                 modes[st["sid"]] = "rec"
                 members[w].append(st["sid"])
                 st["sid"] += 1
@@ -1048,8 +1112,12 @@ class C13(Property):
                 modes[o[1]] = "rec"
                 members[o[2]].append(o[1])
                 for m in o[4]:
-                    rev += 1
-                    store[m[1]] = m[2]
+                    if m[0] == "put":
+                        rev += 1
+                        store[m[1]] = m[2]
+                    elif m[1] in store:
+                        rev += 1
+                        del store[m[1]]
             elif n == "sub":
                 if o[2] not in spied or o[1] in sids or (o[3] == "res" and case["watchers"][o[2]]["exact"]):
                     return False
@@ -1360,6 +1428,60 @@ class C13(Property):
         if k == "subset":
             fs.append("subset_len%ssub" % (">" if len(case["set"]) > case["sub"] else "<="))
         return fs
+
+    KNOWN_JOIN = "C13-join-replay-overtakes-event"
+    # variant -> key touched during the replay -> Values() of the first subscriber (= the registry) afterwards
+    KNOWN_JOIN_SHAPE = {"delete": {"svc/k1": ["v2"], "svc/k2": ["v1"]},
+                        "change": {"svc/k1": ["v2", "v9"], "svc/k2": ["v1", "v9"]}}
+
+    def known(self, case, obs):
+        """C13-join-replay-overtakes-event, narrowly.  Only on a tree whose Registry.Monitor replays outside the cluster
+        lock in exactly the shape of the unchanged tree (regenerated flag join_head: attach, unlock, replay getCurrent();
+        a tree with pending/C13-join-atomic.diff or any other Monitor is judged strictly), only for cluster cases,
+        and only when
+        (i)  some non-exclusive recorded subscriber J joined in a step that overlapped events in the known way: a `subj`
+             whose registrations concern keys that were in watchValue.values at the previous quiescent point and that were
+             injected during the replay, or a subscriber created by a hook during a watch response with >= 2 events;
+        (ii) with those joiners left out, the case satisfies prop_ok (the registry's copy, every other subscriber, their
+             notifications: all right), and each J is consistent with the calls it received and agrees with the
+             registry's copy on every key EXCEPT the keys of those events, and differs on at least one of them."""
+        if case.get("kind") != "cluster" or obs.get("panic") or not getattr(self, "flags", {}).get("join_head"):
+            return None
+        try:
+            cv = ClusterView(case, obs)
+            if not cv.suspects:
+                return None
+            W = [(w["key"], w["exact"]) for w in case["watchers"]]
+            differs = False
+            for sp in cv.suspects:
+                sid, w, keys = str(sp["sid"]), sp["w"], set(sp["keys"])
+                tag = cl_tag(*W[w])
+                held = {}
+                for i in range(sp["step"], len(obs["steps"])):
+                    st = obs["steps"][i]
+                    so = st["subs"].get(sid)
+                    if so is None:
+                        break
+                    for r in so.get("rec") or []:
+                        if r[0] == "add":
+                            held[r[1]] = r[2]
+                        else:
+                            held.pop(r[1], None)
+                    reg = dict((k, v) for k, v in (st["state"].get(tag) or {}).get("values") or [])
+                    if sorted(set(held.values())) != sorted(set(so["vals"])):
+                        return None               # the container does not even reflect its own calls: something else
+                    for k in set(held) | set(reg):
+                        if held.get(k) != reg.get(k):
+                            if k not in keys:
+                                return None       # wrong about a key no overlapped event was about
+                            differs = True
+            if not differs:
+                return None
+            term = ClusterView(case, obs, exclude=[sp["sid"] for sp in cv.suspects]).render()
+            (a, pok), = vlib.coq_eval_cases(self.id, self.check_module, [term], preamble=self.coq_preamble())
+            return self.KNOWN_JOIN if pok else None
+        except Exception:
+            return None
 
     def shrink_candidates(self, case):
         res = Property.shrink_candidates(self, case)
